@@ -66,6 +66,7 @@ type driver struct {
 	seqs     map[string]int64 // family/leader -> last seq issued
 	keys     map[uint32]struct{}
 	pad      int
+	famHeavy bool // create-family and reopen are frequent, several families exist before the first reopen
 }
 
 func (d *driver) begin(kind, family string) *opRec {
@@ -293,6 +294,10 @@ func runHistoryChild() {
 		d.cfg.MaxFileSize = 200
 	}
 	nFam := 1 + rnd.Intn(3)
+	if shape == "families" {
+		nFam = 4 + rnd.Intn(3)
+		d.famHeavy = true
+	}
 	for i := 0; i < nFam; i++ {
 		d.cfg.Families = append(d.cfg.Families, fmt.Sprintf("fam%d", i))
 	}
@@ -373,6 +378,20 @@ func (d *driver) driveRandom(tier string) error {
 		return err
 	}
 	pendingFams = pendingFams[1:]
+	pCreate, pReopen := 8, 8
+	if d.famHeavy {
+		pCreate, pReopen = 22, 14
+		// two or three families exist (with data) before the first reopen
+		for n := 1 + d.rnd.Intn(2); n > 0 && len(pendingFams) > 1; n-- {
+			if err := d.createFamily(pendingFams[0]); err != nil {
+				return err
+			}
+			if err := d.doFlush(d.planFlush(pendingFams[0], false, 0)); err != nil {
+				return fmt.Errorf("flush: %w", err)
+			}
+			pendingFams = pendingFams[1:]
+		}
+	}
 	nOps := 8 + d.rnd.Intn(8)
 	if tier == "thorough" {
 		nOps = 8 + d.rnd.Intn(20)
@@ -390,7 +409,7 @@ func (d *driver) driveRandom(tier string) error {
 		fam := names[d.rnd.Intn(len(names))]
 		r := d.rnd.Intn(100)
 		switch {
-		case r < 8 && len(pendingFams) > 0:
+		case r < pCreate && len(pendingFams) > 0:
 			if err := d.createFamily(pendingFams[0]); err != nil {
 				return err
 			}
@@ -409,7 +428,7 @@ func (d *driver) driveRandom(tier string) error {
 			} else if err := d.doFlush(d.planFlush(fam, false, 0)); err != nil {
 				return err
 			}
-		case r < 80:
+		case r < 72+pReopen:
 			if err := d.reopen(); err != nil {
 				return fmt.Errorf("reopen: %w", err)
 			}
